@@ -52,6 +52,23 @@ def _tuple_names(node: ast.AST) -> List[str]:
     return out
 
 
+def _error_alternatives(fn: ast.FunctionDef, append: ast.Call) -> int:
+    """How many different errors one ``self.errors.append(Error(<node>, <message>))`` stands for: when the message is a local
+    name which the branches before the call assign in ``m > 1`` places (``message = f"…"`` in every branch, one ``append``
+    after them), the call counts as ``m`` sites — the same as ``m`` branches with an ``append`` each."""
+    if len(append.args) != 1 or not isinstance(append.args[0], ast.Call):
+        return 1
+    err = append.args[0]
+    msg = err.args[1] if len(err.args) >= 2 else next((k.value for k in err.keywords if k.arg == "message"), None)
+    if not isinstance(msg, ast.Name):
+        return 1
+    assigns = [
+        st for st in ast.walk(fn)
+        if isinstance(st, ast.Assign) and len(st.targets) == 1 and isinstance(st.targets[0], ast.Name) and st.targets[0].id == msg.id
+    ]
+    return max(1, len(assigns))
+
+
 def gen_Infer(repo: pathlib.Path) -> str:
     """
     Tables read off `_Inferrer` / `_Canonicalizer` with `ast`:
@@ -70,7 +87,7 @@ def gen_Infer(repo: pathlib.Path) -> str:
         for node in ast.walk(fn):
             if (isinstance(node, ast.Call) and isinstance(node.func, ast.Attribute) and node.func.attr == "append"
                     and isinstance(node.func.value, ast.Attribute) and node.func.value.attr == "errors"):
-                k += 1
+                k += _error_alternatives(fn, node)
         if k:
             sites.append((fn.name, k))
     if not sites:
